@@ -303,6 +303,11 @@ class Interp:
                     if pb is not None and not isinstance(pb, int) and hasattr(pb, 'deref'):
                         return pb + self.ev(inner0['idx'], env, members)      # &p[i] == p + i for a model pointer
             if op == '&' and self.memory is not None:
+                in0 = strip(e['e'])
+                if in0 is not None and in0.get('k') == 'ref' and in0.get('dk') == 'local' and '*' not in (in0.get('t') or '') and '[' not in (in0.get('t') or '') \
+                        and not isinstance(env.get(in0.get('id')), (dict, tuple)) and (in0.get('id') not in env or isinstance(env.get(in0['id']), int)):
+                    return ('addrof', in0['id'], in0.get('t'))       # the address of a scalar local: only mem* may use it
+            if op == '&' and self.memory is not None:
                 inner = strip(e['e'])
                 if inner is not None and inner.get('k') == 'sub':
                     a0 = self.ev(inner['base'], env, members)
@@ -400,6 +405,13 @@ class Interp:
                 if name == 'max':
                     return (1 << (w - 1)) - 1 if sg else (1 << w) - 1
                 return -(1 << (w - 1)) if sg else 0
+            if name in ('memcpy', 'memmove', '__builtin_memcpy', '__builtin_memmove') and self.memory is not None and len(args) == 3 \
+                    and isinstance(args[0], tuple) and args[0] and args[0][0] == 'addrof' and isinstance(args[1], int) and isinstance(args[2], int):
+                w_, _s = width(args[0][2])
+                if args[2] != w_ // 8:
+                    raise Unsupported('memcpy of %d bytes into a %d-byte local' % (args[2], w_ // 8))
+                env[args[0][1]] = wrap(self.load(args[1], args[2]), args[0][2])
+                return 0
             if name in ('memcpy', 'memmove', '__builtin_memcpy', '__builtin_memmove') and self.memory is not None and len(args) == 3 and all(isinstance(a, int) for a in args):
                 dst, src, n_ = args
                 data = [self.load(src + j, 1) for j in range(n_)]
